@@ -1,5 +1,5 @@
 SPECIFICATION Spec
-CONSTANT MaxLen = 3
+CONSTANT MaxLen = 6
 CONSTANT Alpha = "rf"
 INVARIANT WellFormed
 INVARIANT Forward
